@@ -988,6 +988,29 @@ fn type_name_shape_definitions() -> Vec<(String, RecordDefinition<NativeDatumDet
             b.build(),
         ));
     }
+    {
+        // generic paths that the resolver does not shorten (they are nameable as recorded: `core`
+        // is always in scope) whose *arguments* are paths it must shorten (`alloc::…` is not
+        // nameable from a crate without `extern crate alloc`, and the including crate has none)
+        use std::cell::RefCell;
+        use std::marker::PhantomData;
+        let mut b: Builder = NativeRecordDefinitionBuilder::new(HostTypeResolver);
+        b.add_datum::<RefCell<Vec<String>>, _>("log").unwrap();
+        b.add_datum::<u32, _>("n").unwrap();
+        b.close_record_variant();
+        b.add_datum::<RefCell<Box<str>>, _>("text").unwrap();
+        b.add_datum::<PhantomData<Vec<String>>, _>("marker").unwrap();
+        b.add_datum::<Option<RefCell<(String, Vec<Box<u64>>)>>, _>("maybe").unwrap();
+        b.close_record_variant_with(nvariant::basic);
+        b.add_datum::<[RefCell<String>; 2], _>("cells").unwrap();
+        b.add_datum::<(RefCell<Vec<u8>>, u8), _>("pair").unwrap();
+        b.add_datum::<Vec<RefCell<Option<String>>>, _>("many").unwrap();
+        b.close_record_variant();
+        out.push((
+            "unshortened generic paths (core::cell::RefCell, core::marker::PhantomData) with standard-path arguments, in a crate without `extern crate alloc` (clone + serde capable)".to_owned(),
+            b.build(),
+        ));
+    }
     out
 }
 
